@@ -51,7 +51,9 @@ def field_json(f):
     nv = f.nvdim
     arr = np.asarray(f.array).reshape(-1, nv)
     if np.iscomplexobj(arr):
-        raise ValueError("complex field cannot be sent as rationals")
+        if np.any(arr.imag != 0):
+            raise ValueError("complex field cannot be sent as rationals")
+        arr = arr.real          # complex storage of real numbers: the model's rationals are these numbers
     return dict(mesh=mesh_json(f.mesh), nvdim=int(nv),
                 data=[Qs(row) for row in arr.tolist()],
                 valid=[bool(v) for v in np.asarray(f.valid).reshape(-1).tolist()],
